@@ -617,6 +617,8 @@ var heapDocs = []string{
 	`{"k\u00DCey":"caf\u00E9 \uD83D\uDE00","\u004B":["\u00e9","\uABCD"]}`,
 	`{"a":[1,2,3],"b":{"c":true,"d":null},"e":"s"}`, `[[1,2],[3],[]]`, `[1,2]`, `{"k":{"k":{"k":1}}}`, `[{"a":1},{"a":2}]`,
 	`7`, `"x"`, `null`, `{}`, `[]`, `{"a":1,"a":2}`, ` [ 10 , 20 , 30 ] `, `{"x":[{"y":[1]}]}`, `[1e400]`, `{"":0,"'":1,"\\":2}`,
+	// wide arrays: with more than ten children the decimal keys "10", "11" … sort before "2" as text
+	`[0,1,2,3,4,5,6,7,8,9,10,11,12]`, `{"w":[[0],[1],[2],[3],[4],[5],[6],[7],[8],[9],[10],[11]],"n":[0,1,2,3,4,5,6,7,8,9]}`,
 }
 
 var heapKeys = []string{"a", "b", "k", "", "x", "0", "1", "'", "\\", "a'b", "é", "\x01", "length", "k.k", "[0]", "\x1b", "\x10\x1f", "t\tb"}
@@ -1092,6 +1094,8 @@ var cloneSources = [][][]string{
 	{{"null", "-"}, {"arr", "-", "e"}, {"arr", "-", "0,1"}},
 	{{"obj", "-", "e"}, {"arr", "-", "0"}},
 	{{"parse", hexOrDash([]byte(`{"a":{}}`))}, {"obj", "-", "e"}, {"appobj", "0", hexOrDash([]byte("n")), "1"}, {"getkey", "0", hexOrDash([]byte("n"))}},
+	// members under the empty key, a NUL key, a key that looks like an index
+	{{"parse", hexOrDash([]byte(`{"":1,"a":[2],"\u0000":3,"0":{"":4}}`))}},
 }
 
 var cloneEdits = []func(g *HistGen, h string){
@@ -1104,6 +1108,27 @@ var cloneEdits = []func(g *HistGen, h string){
 		g.do("getkey", h, hexOrDash([]byte("a")))
 		g.do("getidx", h, "0")
 		g.do("setstr", strconv.Itoa(len(g.s.handles)-1), hexOrDash([]byte("edited")))
+	},
+	// every member in turn: replaced under its own key, then deleted by key (objects) / the elements deleted front to back (arrays)
+	func(g *HistGen, h string) {
+		n := g.s.node(h)
+		if n == nil {
+			return
+		}
+		keys := n.Keys()
+		sort.Strings(keys)
+		if n.IsObject() {
+			for _, k := range keys {
+				g.do("appobj", h, hexOrDash([]byte(k)), g.freshNum())
+			}
+			for _, k := range keys {
+				g.do("delkey", h, hexOrDash([]byte(k)))
+			}
+		} else if n.IsArray() {
+			for range keys {
+				g.do("delidx", h, "0")
+			}
+		}
 	},
 }
 
